@@ -6,16 +6,21 @@ From LH Require Import Base.Bytes Base.Res Model.Lexer Model.Ast Model.Parser Mo
 Import ListNotations.
 Local Open Scope N_scope.
 
-(* `local a, b = 1, a`: the code makes `a` visible in the second initialiser: no type 4 for `a` (line 1, columns 6-7),
-   no type 2 for the read (columns 16-17); the reference binder demands both.  (DESIGN 6 #11, CONFIRMED) *)
-Theorem C07_multi_local_refuted :
+(* multi_local_order, FIXED (fixes/C07-multi-local-order.diff).  `local a, b = 1, a`: the code before the repair (model variant
+   Scope.no_fixes) made `a` visible in the second initialiser: no type 4 for `a` (line 1, columns 6-7), no type 2 for
+   the read (columns 16-17); the reference binder demands both (DESIGN 6 #11, CONFIRMED) - and the code now in /repo
+   reports exactly these two. *)
+Theorem C07_multi_local_refuted_before_fix_and_fixed :
   forall gbk, exists b,
     parse_file gbk w_multi = PFile b /\ in_fragment b = true /\ pos_clean b = true /\ multi_local_order b = true /\
-    go_diags demo_cfg b [] = [] /\
+    go_diags_fx demo_cfg Scope.no_fixes b [] = [] /\
     diag_mem (4, L 1 6 1 7) (spec_diags demo_cfg b []) = true /\
-    diag_mem (2, L 1 16 1 17) (spec_diags demo_cfg b []) = true.
+    diag_mem (2, L 1 16 1 17) (spec_diags demo_cfg b []) = true /\
+    diag_mem (4, L 1 6 1 7) (go_diags demo_cfg b []) = true /\
+    diag_mem (2, L 1 16 1 17) (go_diags demo_cfg b []) = true /\
+    length (go_diags demo_cfg b []) = length (spec_diags demo_cfg b []).
 Proof. exact multi_local_witness. Qed.
-Print Assumptions C07_multi_local_refuted.
+Print Assumptions C07_multi_local_refuted_before_fix_and_fixed.
 
 (* a long comment on the line restarts the lexer's column count (C04 finding): the later read of `bbbb` gets a column
    smaller than its declaration, IsCorrectPosition rejects the declaration: the read is reported undefined (type 2) and the
@@ -43,19 +48,20 @@ Print Assumptions C07_later_elsewhere_refuted.
 (* the guards are satisfiable by a non-trivial program, on which model and reference agree (type 2 for `g`) *)
 Example C07_guard_inhabited :
   forall gbk, exists b,
-    parse_file gbk w_ok = PFile b /\ in_fragment b = true /\ classA_ok b = true /\ pos_clean b = true /\
+    parse_file gbk w_ok = PFile b /\ in_fragment b = true /\ pos_clean b = true /\
     go_diags demo_cfg b [] = [(2, L 4 6 4 7)] /\ spec_diags demo_cfg b [] = [(2, L 4 6 4 7)].
 Proof. exact guard_witness. Qed.
 
 (* ================================================================== positive theorems (agent traverse-bind)
-   Guards (all boolean): in_fragment, classA_ok (no multi-local order class), pos_clean (every look-up of the run saw no
+   Guards (all boolean): in_fragment (the former guard classA_ok = no multi-local order class is GONE since
+   fixes/C07-multi-local-order.diff), pos_clean (every look-up of the run saw no
    same-named variable rejected by IsCorrectPosition), flags_ok (reads at the same Loc carry the same idiom flags - true
    when Locs are distinct), decl_locs_distinct (declaration Locs pairwise distinct), not later_elsewhere. *)
 From LH Require Import Proofs.UsageBind Proofs.UsageBindUndef Proofs.UsageBindUnused.
 
 (* the first-pass traversal resolver binds every read and every assigned name exactly like the reference binder *)
 Theorem C07_bindings_agree : forall c b,
-  in_fragment b = true -> classA_ok b = true -> pos_clean b = true ->
+  in_fragment b = true -> pos_clean b = true ->
   s1_log (first_pass c b) = file_occs b.
 Proof. exact usage_bindings_agree. Qed.
 Print Assumptions C07_bindings_agree.
@@ -63,7 +69,7 @@ Print Assumptions C07_bindings_agree.
 (* types 2 and 3: the third pass reports exactly the list the reference demands (type 2 iff the read is bound to no
    local and no file / built-in / ignored name defines it; type 3 iff only this file defines it, later, top level) *)
 Theorem C07_undefined_partial : forall c b all others,
-  in_fragment b = true -> classA_ok b = true -> pos_clean b = true -> flags_ok b = true ->
+  in_fragment b = true -> pos_clean b = true -> flags_ok b = true ->
   later_elsewhere c b others = false ->
   (forall n, name_mem n all = name_mem n (gnames (s1_gmap (first_pass c b))) || name_mem n others) ->
   s3_diags (run3 true c (s1_gmap (first_pass c b)) all (trace b))
@@ -75,14 +81,14 @@ Print Assumptions C07_undefined_partial.
    declaration iff no read binds to it and it is not exempt; type 17 for the assignments to such a declaration.
    decl_locs_distinct b: the declaration Locs of the chunk are pairwise distinct (boolean; true of parser output) *)
 Theorem C07_unused_partial : forall c b,
-  in_fragment b = true -> classA_ok b = true -> pos_clean b = true -> decl_locs_distinct b = true ->
+  in_fragment b = true -> pos_clean b = true -> decl_locs_distinct b = true ->
   forall x, In x (s1_diags (first_pass c b)) <-> In x (spec_unused c b).
 Proof. exact usage_unused_agree. Qed.
 Print Assumptions C07_unused_partial.
 
 (* both halves: the diagnostics of the file are, as a set, the diagnostics the property demands *)
 Theorem C07_diags_agree_partial : forall c b all others,
-  in_fragment b = true -> classA_ok b = true -> pos_clean b = true -> flags_ok b = true ->
+  in_fragment b = true -> pos_clean b = true -> flags_ok b = true ->
   decl_locs_distinct b = true -> later_elsewhere c b others = false ->
   (forall n, name_mem n all = name_mem n (gnames (s1_gmap (first_pass c b))) || name_mem n others) ->
   forall x, In x (go_diags c b all) <-> In x (spec_diags c b others).
@@ -107,11 +113,11 @@ Proof. exact usage_laid_distinct. Qed.
 Print Assumptions C07_laid_distinct.
 
 (* the diagnostics of the file agree, as a set, with the reference on every Laid chunk of the fragment outside the
-   classes multi_local_order (classA_ok) and later_elsewhere: type 2/3 iff the read binds to no local and no file /
+   class later_elsewhere (multi_local_order: repaired): type 2/3 iff the read binds to no local and no file /
    built-in / ignored name defines it (3 iff only this file, later, top level); type 4 iff no read binds to the
    declaration and it is not exempt; type 17 for the assignments to such a declaration *)
 Theorem C07_diags_agree_laid_partial : forall W c b all others,
-  in_fragment b = true -> classA_ok b = true -> LuaScope.laid_b W b = true -> later_elsewhere c b others = false ->
+  in_fragment b = true -> LuaScope.laid_b W b = true -> later_elsewhere c b others = false ->
   (forall n, name_mem n all = name_mem n (gnames (s1_gmap (first_pass c b))) || name_mem n others) ->
   forall x, In x (go_diags c b all) <-> In x (spec_diags c b others).
 Proof. exact usage_diags_agree_laid_only. Qed.
@@ -120,7 +126,7 @@ Print Assumptions C07_diags_agree_laid_partial.
 (* the statement aimed at: the same without the layout hypothesis.  Missing: Laid for the parser's output (C04; it fails
    on the column-restart finding, see C07_pos_filter_refuted, and where an identifier directly follows a bracket) *)
 Definition C07_diags_full : Prop := forall c b all others,
-  in_fragment b = true -> classA_ok b = true -> later_elsewhere c b others = false ->
+  in_fragment b = true -> later_elsewhere c b others = false ->
   (forall n, name_mem n all = name_mem n (gnames (s1_gmap (first_pass c b))) || name_mem n others) ->
   forall x, In x (go_diags c b all) <-> In x (spec_diags c b others).
 
@@ -130,7 +136,7 @@ Definition C07_diags_full : Prop := forall c b all others,
 Definition w_pos_example : list N := [108; 111; 99; 97; 108; 32; 97; 44; 32; 98; 32; 61; 32; 49; 44; 32; 50; 10; 105; 102; 32; 97; 32; 116; 104; 101; 110; 32; 108; 111; 99; 97; 108; 32; 99; 32; 61; 32; 98; 32; 101; 108; 115; 101; 105; 102; 32; 98; 32; 116; 104; 101; 110; 32; 97; 32; 61; 32; 51; 32; 101; 108; 115; 101; 32; 98; 32; 61; 32; 97; 32; 101; 110; 100; 10; 102; 111; 114; 32; 107; 44; 32; 118; 32; 105; 110; 32; 112; 97; 105; 114; 115; 40; 116; 41; 32; 100; 111; 32; 108; 111; 99; 97; 108; 32; 97; 32; 61; 32; 107; 59; 32; 97; 32; 61; 32; 118; 32; 101; 110; 100; 10; 103; 32; 61; 32; 103; 32; 111; 114; 32; 49; 10; 105; 102; 32; 110; 111; 116; 32; 104; 32; 116; 104; 101; 110; 32; 104; 32; 61; 32; 50; 32; 101; 110; 100; 10; 112; 114; 105; 110; 116; 40; 108; 97; 116; 101; 114; 41; 32; 108; 97; 116; 101; 114; 32; 61; 32; 49; 10; 108; 111; 99; 97; 108; 32; 102; 117; 110; 99; 116; 105; 111; 110; 32; 102; 40; 120; 44; 32; 121; 41; 32; 108; 111; 99; 97; 108; 32; 122; 59; 32; 122; 32; 61; 32; 102; 117; 110; 99; 116; 105; 111; 110; 40; 41; 32; 114; 101; 116; 117; 114; 110; 32; 102; 40; 122; 44; 32; 120; 41; 32; 101; 110; 100; 59; 32; 114; 101; 116; 117; 114; 110; 32; 121; 32; 101; 110; 100; 10; 112; 114; 105; 110; 116; 40; 122; 122; 44; 32; 103; 44; 32; 104; 41; 10].
 Definition b_pos_example : block := Eval vm_compute in block_of w_pos_example.
 Example C07_positive_guards_inhabited :
-  in_fragment b_pos_example = true /\ classA_ok b_pos_example = true /\ pos_clean b_pos_example = true /\
+  in_fragment b_pos_example = true /\ pos_clean b_pos_example = true /\
   LuaScope.laid_b 1000%Z b_pos_example = true /\
   flags_ok b_pos_example = true /\ decl_locs_distinct b_pos_example = true /\
   later_elsewhere demo_cfg b_pos_example [] = false /\
